@@ -786,7 +786,7 @@ class eval_abs(object):
 
             for xx, start, stop in args:
                 if isinstance(xx, ExprInt):
-                    a = xx.arg
+                    a = int(xx.arg)
 
                     mask = (1<<(stop-start))-1
                     a&=mask
@@ -797,7 +797,7 @@ class eval_abs(object):
                     a = xx
                     mask = (1<<(stop-start))-1
                     total_bit+=stop-start
-                    mycond, mysrc1, mysrc2 = a.cond, a.src1.arg&mask, a.src2.arg&mask
+                    mycond, mysrc1, mysrc2 = a.cond, (int(a.src1.arg)&mask)<<start, (int(a.src2.arg)&mask)<<start
 
             mysrc1|=rez
             mysrc2|=rez
@@ -816,7 +816,7 @@ class eval_abs(object):
         rez = 0
         total_bit = 0
         for xx, start, stop in args:
-            a = xx.arg
+            a = int(xx.arg)
             mask = (1<<(stop-start))-1
             a&=mask
             a<<=start#e.args[i][1]
